@@ -67,7 +67,10 @@ class H5Events:
     @property
     def _features(self):
         if self._features_list is None:
-            self._features_list = sorted(self.h5file["events"].keys())
+            events = self.h5file["events"]
+            # ignore links whose target does not exist
+            self._features_list = sorted(
+                [key for key in events.keys() if events.get(key) is not None])
             # make sure that "trace" is not empty
             if ("trace" in self._features
                     and len(self.h5file["events"]["trace"]) == 0):
@@ -245,11 +248,13 @@ class H5TraceEvent:
         return self._num_traces
 
     def __iter__(self):
-        for key in sorted(self.h5group.keys()):
+        for key in sorted(self.keys()):
             yield key
 
     def keys(self):
-        return self.h5group.keys()
+        # ignore links whose target does not exist
+        return [key for key in self.h5group.keys()
+                if self.h5group.get(key) is not None]
 
     @property
     def shape(self):
